@@ -42,7 +42,8 @@ def generate(rng, tier, index):
     # source plane (geometric width ratio 3-15 % per cell, widths within 0.7-1.4 x nominal, >= 15 cells of the *widest* kind per
     # wavelength); (d) a homogeneous *dispersive* medium (one Lorentz pole above the carrier), resolution and run length
     # referred to the permittivity at the carrier frequency
-    variant = specgen.choice(rng, ["plain", "plain", "graded", "dispersive"]) if kind == "uniform_plane" else "plain"
+    variant = specgen.choice(rng, ["plain", "plain", "graded", "dispersive", "magnetic"]) if kind == "uniform_plane" else "plain"
+    mu_r = float(rng.uniform(1.3, 3.0))  # (m) a homogeneous magnetic medium; resolution and run length referred to n = sqrt(eps mu)
     grade = float(rng.uniform(1.03, 1.15)) ** (1 if rng.uniform() < 0.5 else -1)
     # resonance at >= 2 x carrier and damped: measured <= 2e-5 on the unchanged tree. (A pulse whose spectrum reaches a resonance at
     # 1.6-1.7 x carrier sends 2-5e-4 backward, and an undamped pole keeps ringing at its own coarsely resolved resonance after
@@ -56,6 +57,8 @@ def generate(rng, tier, index):
         x = lor["w0_over_wc"]
         chi = lor["deps"] * x * x / (x * x - 1.0 - 1j * lor["gamma_over_w0"] * x)
         eps = float(np.real(eps_inf + chi))  # permittivity seen by the carrier
+    if variant == "magnetic":
+        eps = eps * mu_r  # from here on `eps` only stands for n^2 (wavelength, period, run length); the medium keeps eps_inf
     lam0 = cpw_medium * np.sqrt(eps) * specgen.SPACING
     pml = int(rng.integers(8, 11))
     interior = int(2.2 * cpw_medium) + 8
@@ -79,6 +82,10 @@ def generate(rng, tier, index):
     pol[t1], pol[t2] = float(np.cos(ang)), float(np.sin(ang))
     period_steps = cpw_medium * np.sqrt(eps) / (0.99 / np.sqrt(3))
     src = {"kind": kind, "name": "src", "box": box, "direction": direction, "wavelength": lam0, "e_pol": pol}
+    if kind == "uniform_plane" and rng.uniform() < 0.25:
+        # polarization given through the magnetic vector only, and not normalised (any non-zero transverse vector is valid input)
+        src.pop("e_pol")
+        src["h_pol"] = [float(x * rng.uniform(0.3, 3.0)) for x in pol]
     if kind == "gaussian_plane":
         src["radius"] = float(rng.uniform(0.3, 0.6)) * cpw_medium * specgen.SPACING
     else:
@@ -98,6 +105,8 @@ def generate(rng, tier, index):
         dets.append({"kind": "poynting", "name": nm, "box": b, "direction": "+", "reduce": True, "exact": True, "fixed_propagation_axis": axis})
     grid = {"kind": "uniform", "spacing": specgen.SPACING}
     background = {"permittivity": eps_inf}
+    if variant == "magnetic":
+        background["permeability"] = mu_r
     if variant == "graded":
         edges = []
         for a in range(3):
@@ -170,10 +179,11 @@ def execute(spec):
     tail = float(np.max(np.abs(f[-3:]))) / (float(np.max(np.abs(f))) or 1.0)
     stats["probe_pulse_left_domain"] = int(spec["sources"][0]["profile"]["kind"] == "pulse" and tail < 1e-3)
     stats["probe_" + kind] = 1
+    stats["probe_h_specified_polarization"] = int("h_pol" in spec["sources"][0])
     stats["probe_variant_" + spec.get("variant", "plain")] = 1
     resid["back_over_forward_" + kind + "_" + spec.get("variant", "plain")] = ratio
     stats["probe_" + spec["sources"][0]["profile"]["kind"]] = 1
-    ang = np.arctan2(*[spec["sources"][0]["e_pol"][(spec["axis"] + k) % 3] for k in (2, 1)])
+    ang = np.arctan2(*[(spec["sources"][0].get("e_pol") or spec["sources"][0]["h_pol"])[(spec["axis"] + k) % 3] for k in (2, 1)])
     sig = specgen.signature(spec["axis"], spec["sources"][0]["direction"], kind, spec["sources"][0]["profile"]["kind"], int((ang % (2 * np.pi)) // (np.pi / 4)), int(spec["period_steps"] // 8))
     digest = f"{dr.sig3(Pf)}:{dr.sig3(ratio)}:v{len(viol)}"
     return {"violations": viol, "stats": stats, "residuals": resid, "nontrivial": bool(Pf > 0), "signature": sig, "digest": digest}
